@@ -488,7 +488,7 @@ def run(tier):
     ck.count("natural_order_pairs", len(cases))
 
     # ---- generated schemas -----------------------------------------------------------
-    nschemas = 150 if quick else 1100
+    nschemas = 150 if quick else 900
     specs = []
     for i in range(nschemas):
         spec = G.gen_spec(rng, size=rng.randint(1, 3), adversarial=i % 3 != 0)
